@@ -100,3 +100,35 @@ V('C18', 'neg-pg-needs-quoting-reordered', PC, 'edb.pgsql.common.needs_quoting',
         and not string[:1].isdigit()''', None)
 V('C18', 'ident-to-str-partition', 'edb/edgeql/codegen.py', 'edb.edgeql.codegen.ident_to_str',
   "        for part in ident.split('::')\n", "        for part in ident.rsplit('::', 1)\n", 'C18.R4', 'ident_to_str:every-component')
+
+# round 4: the escape table as a one-pass translate table
+V('C18', 'translate-table-with-vertical-tab', 'edb/edgeql/quote.py', None,
+  """    result = s
+
+    # escape backslash first
+    result = result.replace('\\\\', '\\\\\\\\')
+
+    result = result.replace('\\'', '\\\\\\'')
+    result = result.replace('\\b', '\\\\b')
+    result = result.replace('\\f', '\\\\f')
+    result = result.replace('\\n', '\\\\n')
+    result = result.replace('\\r', '\\\\r')
+    result = result.replace('\\t', '\\\\t')
+""",
+  """    result = s.translate(str.maketrans({'\\\\': '\\\\\\\\', '\\'': '\\\\\\'', '\\b': '\\\\b', '\\f': '\\\\f', '\\n': '\\\\n', '\\r': '\\\\r', '\\t': '\\\\t', '\\v': '\\\\v'}))
+""", 'C18.R1', 'escape')
+V('C18', 'translate-table-same-escapes', 'edb/edgeql/quote.py', None,
+  """    result = s
+
+    # escape backslash first
+    result = result.replace('\\\\', '\\\\\\\\')
+
+    result = result.replace('\\'', '\\\\\\'')
+    result = result.replace('\\b', '\\\\b')
+    result = result.replace('\\f', '\\\\f')
+    result = result.replace('\\n', '\\\\n')
+    result = result.replace('\\r', '\\\\r')
+    result = result.replace('\\t', '\\\\t')
+""",
+  """    result = s.translate(str.maketrans({'\\\\': '\\\\\\\\', '\\'': '\\\\\\'', '\\b': '\\\\b', '\\f': '\\\\f', '\\n': '\\\\n', '\\r': '\\\\r', '\\t': '\\\\t'}))
+""", None)
